@@ -46,8 +46,11 @@ struct HasFunctionGetEvent
 template <typename E>
 struct DefaultGetEvent
 {
+	// Takes the event by const reference: returning an rvalue reference parameter by name is an
+	// implicit move (C++20, and clang in every mode), which would empty the caller's argument
+	// that is forwarded to the listeners afterwards.
 	template <typename U, typename ...Args>
-	static E getEvent(U && e, Args && ...) {
+	static E getEvent(const U & e, Args && ...) {
 		return e;
 	}
 };
